@@ -70,3 +70,21 @@ example : (failIn "" exCfg "deep" "boom").map (·.stopped) = some ["deep", "d2",
   simp [exCfg, failIn_eq, findChild_sys, findChild_dev, Tree.name]
 
 end Tickit
+
+namespace Tickit
+
+/-- what `TickitSimulation.run()` awaits: the master's task and every top-level component's
+`run_forever`.  The master's loop ends when its error flag is up; a component's `run_forever`
+returns once it was told to stop (its long-running tasks are cancelled). -/
+def runReturns (cfg : List Tree) (r : Report) : Prop :=
+  "" ∈ r.errored ∧ ∀ t ∈ cfg, t.name ∈ r.stopped
+
+/-- **the run call returns** (at the level of the exception-path model): whenever a device that
+exists anywhere in the configuration fails, the master's loop ends and every task the run call
+awaits has been told to stop. -/
+theorem run_returns (cfg : List Tree) (target : Comp) (err : String) (ht : target ∈ devicesOf cfg) :
+    ∃ r, failIn "" cfg target err = some r ∧ runReturns cfg r := by
+  obtain ⟨r, hr, hm, _⟩ := reaches_master cfg target err ht
+  exact ⟨r, hr, hm, (all_on_path_stopped cfg target err r hr).1⟩
+
+end Tickit
